@@ -1,6 +1,9 @@
 /-
   Progress of the closed loop, round-boundary classes 24, 25, 26: one fair round from a state of the class leads to a state of the
-  invariant with a strictly smaller measure.
+  invariant with a strictly smaller measure (`round_cls_X`), and keeps `doneInv` (`done_cls_X`).  Both follow from the shape
+  lemmas `lG7_shape_X` (24 -> 25: mu 14 -> 13; 25 -> 26: mu 13 -> 12, the CloneSet is released; 26 -> 27: mu 12 -> 10).
+  Class 25 needs `b.st.hash != .empty` and `b.observedRolloutID == b.rolloutID` (otherwise the sync step of the BatchRelease
+  reconcile changes the status and the executor does not reach `Finalize` in this round); 24 -> 25 supplies both.
 -/
 import RV.Lemmas.ClosedLoopLiveBase
 namespace RV.Lemmas.ClosedLoop
@@ -917,5 +920,39 @@ theorem done_cls_26 (s : CS) (h : liveInv s = true) (hd : doneInv s = true) (hc 
   rw [h4, h6]
   simp at hd ⊢
   exact hd
+
+theorem lG7_pol_of_mu (s' : CS) (n : Nat) (h : mu s' = n) (hn : n ≤ 32) : polInv s' = true := by
+  unfold polInv
+  rw [h]
+  cases s'.br with
+  | none => rfl
+  | some b => simp [hn]
+
+theorem pol_cls_24 (s : CS) (h : liveInv s = true) (hp : polInv s = true) (hc : cls s = 24) :
+    ∀ s', round s = some s' → polInv s' = true := by
+  have _ := hp
+  obtain ⟨s0, h1, _, _, h4⟩ := lG7_shape_24 s h hc
+  intro s' hs'
+  have : s' = s0 := Option.some.inj (hs'.symm.trans h1)
+  subst this
+  exact lG7_pol_of_mu s' 13 h4 (by decide)
+
+theorem pol_cls_25 (s : CS) (h : liveInv s = true) (hp : polInv s = true) (hc : cls s = 25) :
+    ∀ s', round s = some s' → polInv s' = true := by
+  have _ := hp
+  obtain ⟨s0, _, h1, _, _, h4, _⟩ := lG7_shape_25 s h hc
+  intro s' hs'
+  have : s' = s0 := Option.some.inj (hs'.symm.trans h1)
+  subst this
+  exact lG7_pol_of_mu s' 12 h4 (by decide)
+
+theorem pol_cls_26 (s : CS) (h : liveInv s = true) (hp : polInv s = true) (hc : cls s = 26) :
+    ∀ s', round s = some s' → polInv s' = true := by
+  have _ := hp
+  obtain ⟨s0, _, h1, _, _, h4, _⟩ := lG7_shape_26 s h hc
+  intro s' hs'
+  have : s' = s0 := Option.some.inj (hs'.symm.trans h1)
+  subst this
+  exact lG7_pol_of_mu s' 10 h4 (by decide)
 
 end RV.Lemmas.ClosedLoop
